@@ -719,8 +719,25 @@ func main() {
 		for verb := 0; verb < 3; verb++ {
 			for _, applied := range []bool{true, false} {
 				for _, big := range []bool{false, true} {
-					faultRun(w, rnd.Fork(), args.Scratch, verb, applied, big)
+					faultRun(w, rnd.Fork(), args.Scratch, verb, applied, big, 0)
 				}
+			}
+			// two faults in sequence on one key: the write lands but is answered "uncertain"; its repair commit
+			// is answered "uncertain" and does not land / fails outright
+			for second := 1; second <= 2; second++ {
+				faultRun(w, rnd.Fork(), args.Scratch, verb, true, false, second)
+			}
+		}
+	}
+	// the partitioned (streamed) list-then-watch path, with and without a compaction above R before the streaming
+	np := 3
+	if args.Tier != "quick" {
+		np = 20
+	}
+	for i := 0; i < np; i++ {
+		for _, cb := range []bool{true, false} {
+			for _, split := range []bool{false, true} {
+				partitionedRun(w, rnd.Fork(), args.Scratch, cb, split)
 			}
 		}
 	}
